@@ -12,6 +12,18 @@ NOT_APPLICABLE = {
 }
 
 PROPERTIES = {
+    "C04": {
+        "modules": ["harness.c04"],
+        "explanation": "",
+        "assumptions": COMMON_ASSUMPTIONS + [
+            "device = sim/ledger.py (conforming answers of the documented lengths); the outcome injected at exchange k replaces the device's answer",
+            "status words are raised as ledgerblue does: CommException('Invalid status ..', sw); 0x9000/0x61xx/0x6Cxx are not faults",
+            "struct.pack in ledger.hsm2dongle replaced by an equivalent list-based packer; hex()/logger formatting stubbed",
+        ],
+        "level_text": "bounded symbolic verification: for every command and every exchange step the status word (all 65536 values), "
+                      "the fault kind and the answer opcode are solver variables; the oracle is docs/protocol.md plus the firmware's error names",
+        "level_note": "trusted: CrossHair/z3, the simulated device, the named-cause table transcribed from firmware headers",
+    },
     "C09": {
         "modules": ["harness.c09"],
         "explanation": "",
